@@ -202,6 +202,9 @@ func (s *StorageClient) Get(key string) (*mc.Item, error) {
 func (s *StorageClient) GetMulti(keys []string) (map[string]*mc.Item, error) {
 	ret := make(map[string]*mc.Item)
 	for _, key := range keys {
+		if _, dup := ret[key]; dup {
+			continue
+		}
 		item, _ := s.Get(key)
 		if item != nil {
 			ret[key] = item
